@@ -147,39 +147,65 @@ func (v objectValidator) validateTypeRules(objectNode *schema.ObjectNode, value 
 			continue
 		}
 		key := k.Key
-		typ, ok := v.rootSchema.TypesList()[key]
-		if !ok {
+		if _, ok := v.rootSchema.TypesList()[key]; !ok {
 			continue
 		}
-		node := typ.Schema().RootNode()
-		if node.Type().String() != "string" {
-			panic(errors.Format(errors.ErrInvalidKeyType, v.requiredKeysString()))
-		}
-
-		flag := false
-		inside := false
-		i := 0
-
-		node.ConstraintMap().EachSafe(func(_ constraint.Type, v constraint.Constraint) {
-			inside = true
-			if i == 0 {
-				flag = true
-			}
-			flag = flag && checkConstraint(v, value)
-			i++
-		})
-
-		if !inside {
-			if bytes.Equal(node.Value(), value) {
-				flag = true
-			}
-		}
-		if flag {
+		if v.keyMatchesType(key, value, map[string]struct{}{}) {
 			// all rules ok for a node
 			return key, true
 		}
 	}
 	return "", false
+}
+
+// keyMatchesType reports whether the key is accepted by the string type used as a
+// key shortcut. The type may be a reference or a list of alternatives (@k = @k2,
+// @k = @a | @b): the key is accepted when one of them accepts it. visiting holds
+// the names on the current path, a type list may name a type being resolved.
+func (v objectValidator) keyMatchesType(name string, value jbytes.Bytes, visiting map[string]struct{}) bool {
+	typ, ok := v.rootSchema.TypesList()[name]
+	if !ok {
+		return false
+	}
+	node := typ.Schema().RootNode()
+
+	if mixed, ok := node.(*schema.MixedValueNode); ok {
+		visiting[name] = struct{}{}
+		defer delete(visiting, name)
+		for _, tn := range mixed.GetTypes() {
+			if _, ok := visiting[tn]; ok {
+				continue
+			}
+			if v.keyMatchesType(tn, value, visiting) {
+				return true
+			}
+		}
+		return false
+	}
+
+	if node.Type().String() != "string" {
+		panic(errors.Format(errors.ErrInvalidKeyType, v.requiredKeysString()))
+	}
+
+	flag := false
+	inside := false
+	i := 0
+
+	node.ConstraintMap().EachSafe(func(_ constraint.Type, v constraint.Constraint) {
+		inside = true
+		if i == 0 {
+			flag = true
+		}
+		flag = flag && checkConstraint(v, value)
+		i++
+	})
+
+	if !inside {
+		if bytes.Equal(node.Value(), value) {
+			flag = true
+		}
+	}
+	return flag
 }
 
 func checkConstraint(constr constraint.Constraint, value jbytes.Bytes) (b bool) {
